@@ -2,6 +2,7 @@ package main
 
 import (
 	"fmt"
+	"os"
 	"go/token"
 	"go/types"
 	"strings"
@@ -305,7 +306,11 @@ func (ex *Exec) contractAtCallSite(fn *ssa.Function, ct *Contract) bool {
 	if !ex.useContracts || ct.Inline || fn == ex.topFn || ex.noContractFor[ct.Func] {
 		return false
 	}
-	return ct.Modular || ex.hasLoop(fn, map[*ssa.Function]bool{})
+	r := ct.Modular || ex.hasLoop(fn, map[*ssa.Function]bool{})
+	if os.Getenv("ICSVC_DEBUG_CT") != "" {
+		fmt.Fprintf(os.Stderr, "contractAtCallSite %s -> %v\n", fn.Name(), r)
+	}
+	return r
 }
 
 func (ex *Exec) hasLoop(fn *ssa.Function, seen map[*ssa.Function]bool) bool {
@@ -352,7 +357,9 @@ func (ex *Exec) callFunction(fr *Frame, fn *ssa.Function, args []Val, bindings [
 		return r
 	}
 	if ct := ex.lookupContract(fn); ct != nil && ex.contractAtCallSite(fn, ct) {
-		return ex.applyContract(fr, fn, ct, args, st, call)
+		rs := ex.applyContract(fr, fn, ct, args, st, call)
+		ex.logCall(fn, args, rs)
+		return rs
 	}
 	if len(ex.callStack) > ex.inlineMax {
 		ex.unsupp("inline depth exceeded at %s", fn.Name())
@@ -366,7 +373,31 @@ func (ex *Exec) callFunction(fr *Frame, fn *ssa.Function, args []Val, bindings [
 	}
 	base := len(st.pc)
 	rs := ex.runFunc(fn, args, bindings, st, nil)
-	return ex.mergeResults(base, rs, fn.Signature)
+	rs = ex.mergeResults(base, rs, fn.Signature)
+	ex.logCall(fn, args, rs)
+	return rs
+}
+
+// logCall records the call in the ghost history of every resulting state (only for named repository functions).
+func (ex *Exec) logCall(fn *ssa.Function, args []Val, rs []Result) {
+	if ex.specMode > 0 || fn.Pkg == nil || len(ex.callStack) > 1 {
+		return // only direct calls of the function under verification
+	}
+	name := fn.Name()
+	var ps []*types.Var
+	for _, p := range fn.Params {
+		if v, ok := p.Object().(*types.Var); ok {
+			ps = append(ps, v)
+		} else {
+			ps = append(ps, types.NewVar(0, nil, p.Name(), p.Type()))
+		}
+	}
+	for _, r := range rs {
+		if r.st.calls == nil {
+			r.st.calls = map[string][]CallRec{}
+		}
+		r.st.calls[name] = append(r.st.calls[name], CallRec{Args: args, Ret: r.ret, Sig: fn.Signature, Params: ps})
+	}
 }
 
 // callPure runs fn on a copy of st and returns the merged result value (effects are dropped).
